@@ -476,6 +476,10 @@ macro_rules! cat {
 pub struct Catalog {
     pub reg: Registry,
     pub entries: Vec<Entry>,
+    /// number of built-in entries at the front of `entries` (the rest are generated families)
+    pub builtins: usize,
+    pub fams: model::evo::Families,
+    pub infos: Vec<crate::families_gen::FamilyInfo>,
 }
 
 impl Catalog {
@@ -519,5 +523,8 @@ pub fn builtin_catalog() -> Catalog {
             e.recursive = true;
         }
     }
-    Catalog { reg, entries }
+    let builtins = entries.len();
+    let (fe, fams, infos) = crate::families_gen::family_catalog(&mut reg);
+    entries.extend(fe);
+    Catalog { reg, entries, builtins, fams, infos }
 }
